@@ -48,6 +48,9 @@ def held_symbols(draw, sp):
     for i, var_n in _by_element(sp).items():
         if draw(st.booleans()):
             vars_ = [v for v in var_n if draw(st.integers(0, 3)) > 0]
+            # a disturbance may be supplied as an expression (1.2 * symbol) of the caller's fresh symbol: the
+            # function's argument is then that symbol
+            vars_ = [(v + "*1.2") if (v == "d" and draw(st.integers(0, 2)) == 0) else v for v in vars_]
             if vars_:
                 out.append([i, list(draw(st.permutations(vars_)))])
     out = list(draw(st.permutations(out)))
@@ -104,6 +107,13 @@ def check_case(case, ctx):
         ctx.label("opts")
     parsed = {}
     raw_results = {}
+    fstate = state  # what the function is fed with
+    scaled = [(i, v[:-4]) for i, vs in (case.get("init") or []) if i != "$same-names" for v in vs if v.endswith("*1.2")]
+    if scaled:
+        ctx.label("expression-of-symbol")
+        state = {i: {k: list(v) for k, v in s_.items()} for i, s_ in state.items()}
+        for i, v in scaled:
+            state[i][v] = [1.2 * x for x in state[i][v]]  # what the model sees
     twin = guarded(ctx, "numpy-step", S.step_numpy, sp, state, case["opts"])
     if crashed(twin):
         return
@@ -155,7 +165,7 @@ def check_case(case, ctx):
             if names_out[k] != names_in[k] + "+" or got_out[k] != got_in[k]:
                 ctx.fail(f"successor:level{level}", f"level {level}: result {k} {names_out[k]!r}[{got_out[k]}] is not the successor of argument {k} {names_in[k]!r}[{got_in[k]}]")
         def call():
-            res = F(*lay.args(level, state, params, values))
+            res = F(*lay.args(level, fstate, params, values))
             res = list(res) if isinstance(res, (list, tuple)) else [res]
             return res, lay.parse(level, res, more_out)
         r = guarded(ctx, "call", call)
@@ -173,7 +183,7 @@ def check_case(case, ctx):
         usable = all(math.isfinite(float(v)) and float(v) >= 0 for vs in x1.values() for a in vs.values() for v in a)
         if usable and not case["opts"]:
             ctx.label("feedback")
-            args = lay.args(level, state, params, values)
+            args = lay.args(level, fstate, params, values)
             for k in range(n_state_args):
                 args[k] = res[k]
             def call2():
